@@ -19,6 +19,9 @@ structure ExcObs where
   code : Option Int := none          -- `error_code`
   desc : Option Str := none          -- `error_desc`
   status : Option Int := none        -- `status`
+  /-- the attributes have the types callers compare against: `error_code` / `status` are `None` or a
+      genuine `int` (not a `str`, `float` or `bool` that prints the same), `error_desc` is `None` or a `str` -/
+  typed : Bool := true
 deriving Repr, DecidableEq
 
 inductive OutObs
@@ -36,7 +39,7 @@ def isExcOf (o : OutObs) (cls : String) : Bool :=
 /-- "raises the response error carrying the status" -/
 def isResponseError (o : OutObs) (status : Int) : Bool :=
   match o with
-  | .exc e => e.isA "UpnpResponseError" && e.status == some status
+  | .exc e => e.isA "UpnpResponseError" && e.status == some status && e.typed
   | .ret _ => false
 
 /-- direct children of the envelope's `Body` elements (the standard place of a fault / response) -/
@@ -63,7 +66,7 @@ def faultOk (f : Xml) (status : Int) (o : OutObs) : Bool :=
      | none => true                                 -- non-numeric errorCode: not judged
      | some c =>
        match o with
-       | .exc e => e.isA "UpnpActionError" && e.code == c && e.desc == desc
+       | .exc e => e.isA "UpnpActionError" && e.code == c && e.desc == desc && e.typed
                    && (status == 200 || (e.isA "UpnpResponseError" && e.status == some status))
        | .ret _ => false)
   | _, _ => true                                    -- several code / description elements: not judged
@@ -99,13 +102,9 @@ def responseOk (O : Oracles) (a : ActionDecl) (r : Xml) (o : OutObs) : Bool :=
     | .ret items => retOk O a cs items
     | .exc _ => false
 
-def ok (O : Oracles) (X : XmlOracle) (a : ActionDecl) (status : Int) (body : Option Str) (o : OutObs) : Bool :=
-  match body with
-  | none => true
-  | some text =>
-    -- the document the body is: padding (" \t\r\n\0") after it is ignored; in an error answer
-    -- (status ≠ 200) padding before it is ignored as well
-    match X (if status == 200 then rstripPad text else stripPad text) with
+/-- the judgement once it is settled which document the body is (`res` = the parser's answer) -/
+def okDoc (O : Oracles) (a : ActionDecl) (status : Int) (res : Option (Option Xml)) (o : OutObs) : Bool :=
+    match res with
     | none => true
     | some none =>
         -- the body is not XML
@@ -129,6 +128,17 @@ def ok (O : Oracles) (X : XmlOracle) (a : ActionDecl) (status : Int) (body : Opt
                 if a.strict then isExcOf o "UpnpError"        -- foreign namespace, strict
                 else if atBody doc (fun e => Xml.localOf e.tag == a.name ++ "Response".toList) then responseOk O a r o else true
             | _ => if a.strict then isExcOf o "UpnpError" else true
+
+/-- The document the body is: padding (`" \t\r\n\0"`) AFTER it is never significant ("regardless of
+    … trailing NUL padding").  Padding BEFORE it is not mentioned by the text: a 200 answer is read
+    as it stands; for an error answer (status ≠ 200) both readings are accepted — leading padding
+    ignored (what the library does today) or not (then a padded body may simply not be XML). -/
+def ok (O : Oracles) (X : XmlOracle) (a : ActionDecl) (status : Int) (body : Option Str) (o : OutObs) : Bool :=
+  match body with
+  | none => true
+  | some text =>
+    if status == 200 then okDoc O a status (X (rstripPad text)) o
+    else okDoc O a status (X (rstripPad text)) o || okDoc O a status (X (stripPad text)) o
 
 /-- the observable form of a model outcome (`anc` = library ancestors by class name) -/
 def observe (anc : String → List String) : Outcome → OutObs
